@@ -14,6 +14,9 @@ rocq/Text/KvErrModel.v; this translator reads from the AST, on every run,
   invariant of the model (`cur_block = cur_block_contents[-1]` when a block is expected, `open_keyvalues.pop()`, the
   `assert` about `cur_block._value`); every other unguarded site is counted in `kv_unmodelled_unguarded` (obligation: 0);
 * `FLAGS_DEFAULT` (non-literal values are read from the imported module: they depend on the platform);
+* the same census for `Tokenizer._next_char/_get_token/_handle_comment/_handle_string`, and for these and for
+  `Keyvalues.parse` every `raise` statement: it must raise `self.error(...)` (tokenizer; `ValueError` for non-str chunks in
+  `_next_char` is by design) resp. `tokenizer.error(...)` / `KeyValError(...)` (parser);
 * for every `.error(<literal>, args...)` call: the number of positional `{}` fields of the literal and the number of
   arguments (a `str.format` with too few arguments would raise IndexError instead of building the TokenSyntaxError).
 
@@ -28,9 +31,10 @@ from harness.common import TranslateError, src_text
 # callees that cannot raise a foreign exception on the values the parser passes them
 PARSE_CALLEES_OK = {
     'Keyvalues.__new__', 'isinstance', 'os.fspath', 'Tokenizer', 'tokenizer', 'tokenizer.error', 'tokenizer.expect',
-    'tokenizer.push_back', '_read_flag', 'sys.intern', 'KeyValError', 'len', 'bool',
+    'tokenizer.push_back', '_read_flag', 'sys.intern', 'KeyValError', 'len', 'bool', 'str', 'repr', 'list', 'tuple', 'iter',
+    'type', 'id', 'hasattr', 'callable', 'enumerate', 'zip', 'range', 'warnings.warn',
 }
-PARSE_METHODS_OK = {'casefold', 'append', 'has_children', 'join', 'is_root'}
+PARSE_METHODS_OK = {'casefold', 'append', 'has_children', 'join', 'is_root', 'startswith', 'endswith', 'extend', 'copy', 'lower', 'upper', 'strip'}
 FLAG_CALLEES_OK = {'bool', 'FLAGS_DEFAULT.get', 'len'}
 FLAG_METHODS_OK = {'casefold', 'startswith', 'lower', 'removeprefix'}
 CATCH = {
@@ -111,6 +115,10 @@ class _Census:
         for n in ast.walk(func):
             if isinstance(n, ast.AnnAssign) and isinstance(n.target, ast.Name) and ast.unparse(n.annotation).split('[')[0] in ('str', 'list'):
                 self.seq_names.add(n.target.id)
+        for n in ast.walk(func):
+            if isinstance(n, ast.Call) and isinstance(n.func, ast.Name) and n.func.id == 'isinstance' and len(n.args) == 2 \
+                    and isinstance(n.args[0], ast.Name) and ast.unparse(n.args[1]) in ('str', 'list', '(str, list)'):
+                self.seq_names.add(n.args[0].id)        # type-narrowed by an isinstance test in the same function
         self.sites: list[dict] = []
 
     def in_annotation(self, node: ast.AST) -> bool:
@@ -136,6 +144,7 @@ class _Census:
     def guard(self, node: ast.AST, kind: str, base: str | None) -> str:
         cur: ast.AST = node
         plain_ok = base is not None and base in self.seq_names
+        member = f'{ast.unparse(node.slice)} in {base}' if isinstance(node, ast.Subscript) else None   # `k in D` guards `D[k]`
         while id(cur) in self.par:
             p, field = self.par[id(cur)]
             if isinstance(p, ast.Try) and field == 'body':
@@ -148,10 +157,10 @@ class _Census:
             if base is not None and kind in ('index', 'pop'):
                 if isinstance(p, ast.BoolOp) and isinstance(p.op, ast.And):
                     k = next(i for i, v in enumerate(p.values) if v is cur)
-                    if any(_truthy_of(o, base, plain_ok) for v in p.values[:k] for o in _and_operands(v)):
+                    if any(_truthy_of(o, base, plain_ok) or ast.unparse(o) == member for v in p.values[:k] for o in _and_operands(v)):
                         return 'nonempty'
                 if isinstance(p, (ast.If, ast.While)) and field == 'body' or isinstance(p, ast.IfExp) and field == 'body':
-                    if any(_truthy_of(o, base, plain_ok) for o in _and_operands(p.test)):
+                    if any(_truthy_of(o, base, plain_ok) or ast.unparse(o) == member for o in _and_operands(p.test)):
                         return 'nonempty'
             cur = p
         return 'none'
@@ -180,6 +189,31 @@ class _Census:
                 else:
                     self.sites.append(dict(kind='call', line=n.lineno, base=callee, index='', node=n, guard=self.guard(n, 'call', None)))
         return self.sites
+
+
+TOK_FUNCS = ['_next_char', '_get_token', '_handle_comment', '_handle_string']
+TOK_CALLEES_OK = {'self._next_char', 'self.error', 'self._handle_comment', 'self._handle_string', 'isinstance', 'len', 'bool', 'str',
+                  'ValueError'}     # constructing an exception object is total; what may be RAISED is the raise census
+TOK_METHODS_OK = {'join', 'append', 'casefold', 'startswith', 'endswith', 'extend'}
+
+
+def _raise_census(func: ast.FunctionDef, ok_calls: set[str], by_design: set[str]) -> tuple[int, int, list[int]]:
+    """(raises through an allowed constructor, raises allowed by design, lines of every other raise)."""
+    good = design = 0
+    bad: list[int] = []
+    for n in ast.walk(func):
+        if isinstance(n, ast.Raise):
+            if n.exc is None:
+                bad.append(n.lineno)        # bare re-raise
+                continue
+            callee = ast.unparse(n.exc.func) if isinstance(n.exc, ast.Call) else ast.unparse(n.exc)
+            if callee in ok_calls:
+                good += 1
+            elif callee in by_design:
+                design += 1
+            else:
+                bad.append(n.lineno)
+    return good, design, bad
 
 
 def _format_fields(node: ast.expr) -> int | None:
@@ -347,6 +381,23 @@ def translate() -> tuple[str, dict]:
     ttree = ast.parse(src_text('tokenizer.py'))
     ecalls = _error_calls(ttree, 'tokenizer.py') + _error_calls(tree, 'keyvalues.py')
 
+    # ---- the tokenizer's own functions: same census, plus every `raise`
+    tok_sites: list[dict] = []
+    tok_bad_raises: list[int] = []
+    tok_raises = tok_design = 0
+    for fn in TOK_FUNCS:
+        f = _find_func(ttree, fn, 'Tokenizer')
+        for st in _Census(f, TOK_CALLEES_OK, TOK_METHODS_OK).run():
+            st['func'] = fn
+            tok_sites.append(st)
+        # non-str chunks raise ValueError by design (outside the property: the text must be str)
+        g, d, bad = _raise_census(f, {'self.error'}, {'ValueError'} if fn == '_next_char' else set())
+        tok_raises += g
+        tok_design += d
+        tok_bad_raises += bad
+    tok_unguarded = [st for st in tok_sites if st['guard'] == 'none']
+    pg, _pd, parse_bad_raises = _raise_census(parse, {'tokenizer.error', 'KeyValError'}, set())
+
     allsites = sites_f + sites_p
     lines = [
         '(* GENERATED by translate/c03_kvparse.py from /repo/src/srctools/keyvalues.py and tokenizer.py. Do not edit. *)',
@@ -365,6 +416,17 @@ def translate() -> tuple[str, dict]:
         'Definition kv_unmodelled_unguarded : list N := [' + '; '.join(str(s['line']) for s in unmodelled) + '].',
         '(* FLAGS_DEFAULT (name, value) *)',
         'Definition kv_flags_default : list (list N * bool) := [' + '; '.join(f'({_coq_str(k4)}, {_b(v4)})' for k4, v4 in dd.items()) + '].',
+        '(* Tokenizer._next_char/_get_token/_handle_comment/_handle_string: the same census (line, kind, guard) ... *)',
+        'Definition tok_site_census : list (N * N * N) := [' + '; '.join(
+            f'({st["line"]}, {KIND_ID[st["kind"]]}, {GUARD_ID[st["guard"]]})' for st in tok_sites) + '].',
+        'Definition tok_unguarded_sites : list N := [' + '; '.join(str(st['line']) for st in tok_unguarded) + '].',
+        '(* ... and every `raise`: lines of those that do not raise self.error(...) (ValueError for non-str chunks in _next_char is by design) *)',
+        f'Definition tok_raises_through_error : N := {tok_raises}.',
+        f'Definition tok_raises_by_design : N := {tok_design}.',
+        'Definition tok_foreign_raises : list N := [' + '; '.join(map(str, tok_bad_raises)) + '].',
+        '(* Keyvalues.parse: lines of raise statements that raise neither tokenizer.error(...) nor KeyValError(...) *)',
+        f'Definition kv_raises_typed : N := {pg}.',
+        'Definition kv_foreign_raises : list N := [' + '; '.join(map(str, parse_bad_raises)) + '].',
         '(* every .error(<literal>, args...) call: (line, positional fields the literal needs, arguments passed) *)',
         'Definition error_format_calls : list (N * N * N) := [' + '; '.join(f'({ln}, {need}, {na})' for _f, ln, need, na in ecalls) + '].',
         '',
@@ -372,6 +434,10 @@ def translate() -> tuple[str, dict]:
     side = dict(cfg=cfg, found=found, flags_default=dd, flags_default_from_runtime=runtime,
                 census=[{k5: v5 for k5, v5 in s.items() if k5 != 'node'} for s in allsites],
                 unmodelled_unguarded=[{k5: v5 for k5, v5 in s.items() if k5 != 'node'} for s in unmodelled],
+                tokenizer_census=[{k5: v5 for k5, v5 in st.items() if k5 != 'node'} for st in tok_sites],
+                tokenizer_unguarded=[{k5: v5 for k5, v5 in st.items() if k5 != 'node'} for st in tok_unguarded],
+                tokenizer_raises=dict(through_error=tok_raises, by_design=tok_design, foreign_lines=tok_bad_raises),
+                parse_raises=dict(typed=pg, foreign_lines=parse_bad_raises),
                 error_calls=len(ecalls),
                 error_calls_bad=[f'{f}:{ln} needs {need} has {na}' for f, ln, need, na in ecalls if need > na])
     return '\n'.join(lines), side
